@@ -168,7 +168,7 @@ def _worker_exh(ctx, job):
 
 @st.composite
 def long_plans(draw):
-    v = draw(st.sampled_from([4, 7, 8, 13, 14]))
+    v = draw(st.sampled_from([4, 7, 8, 13, 14, 15]))
     outs = OUT4 if v == 4 else OUTN
     period = draw(st.sampled_from([180, 180, 3, 5]))
     n = draw(st.integers(150, 400)) if period == 180 else draw(st.integers(10, 80))
